@@ -226,3 +226,11 @@ package htlcswitch
 //@ func (cm *circuitMap) addCircuitToHashIndex
 //@   props C07
 //@   modifies mapof(cm.hashIndex), mapof(cm.hashIndex[c.PaymentHash])
+//@
+//@ func (s *Switch) handlePacketAdd
+//@   props C09
+//@   loop * havoc
+//@   site call CheckHtlcForward: assert ret(EligibleToForward) && arg(0) == link && arg(2) == packet.incomingAmount && arg(3) == packet.amount &&
+//@        arg(4) == packet.incomingTimeout && arg(5) == packet.outgoingTimeout && arg(6) == packet.inboundFee &&
+//@        arg(7) == ret(LoadUint32)
+//@   site call append nth 1: assert arg(0) == destinations && ret(EligibleToForward) && ret(CheckHtlcForward) == nil
